@@ -2386,8 +2386,9 @@ def _stage_confirm(ctx):
     import subprocess
     import sys
     from ..leanio import VERIF
-    cands = [f for f in ctx.failures if f.kind == "property" and f.op in OPS and f.op != "instance_validate"
-             and isinstance(f.impl, dict)]
+    def judged(f):      # not the known finding C03-2 (matched and reported by the framework afterwards)
+        return f.kind == "property" and f.op in OPS and isinstance(f.impl, dict) and not _match_instance_passthrough(f, None)
+    cands = [f for f in ctx.failures if judged(f)]
     if not cands:
         return
 
@@ -2419,8 +2420,7 @@ def _stage_confirm(ctx):
         # the failures that were not re-run share the state of the process with those that were: keep only what is
         # known to reproduce on its own
         keep_ids = {id(f) for f in same}
-        dropped = [f for f in ctx.failures if f.kind == "property" and id(f) not in keep_ids and f.op in OPS
-                   and f.op != "instance_validate"]
+        dropped = [f for f in ctx.failures if id(f) not in keep_ids and judged(f)]
         ctx.note(f"{len(dropped)} failures are not reported on their own: {len(dependent)} of the {len(single) + len(hist)} smallest "
                  "exist only after other earlier calls in the same process (e.g. " + json.dumps(dependent[0].inp)[:200]
                  + "); the replays reported reproduce in a fresh process")
